@@ -37,6 +37,9 @@ def run(chk):
     chk.cov["exhaustive"] = True
     chk.sample({"ser_row": rows_ser[70000]})
     chk.sample({"de_row": rows_de[300000]})
+    for m in list(re.finditer(r'<<"LENIENT", "(\w+)", (\d+)>>', r.out))[:20]:
+        row = rows_de[int(m.group(2)) - 1]
+        chk.drift("L1-length", "%s parser reads the non-canonical input %s differently from the specification's leniency" % (row[0], row[1]), {"row": row})
     for m in re.finditer(r'<<"BAD", "(\w+)", (\d+)>>', r.out):
         kind, i = m.group(1), int(m.group(2))
         row = (rows_ser if kind == "ser" else rows_de)[i - 1]
